@@ -293,7 +293,9 @@ class ImportExpr:
     def __call__(self, target, engine):
         string = self.expression.strip().replace('\n', ' ')
         if self.re_dotted.match(string) is None:
-            raise ExpressionError("Not a dotted name.", string)
+            # (reported as it is written, with its line breaks)
+            raise ExpressionError(
+                "Not a dotted name.", self.expression.strip())
         value = template(
             "RESOLVE(NAME)",
             RESOLVE=Symbol(resolve_dotted),
